@@ -16,8 +16,8 @@ from concurrent.futures import ThreadPoolExecutor
 import core
 from stages.common import *
 
-MON_C10 = {"OnlyVerifiedInOrder", "CheckExact", "RepairExact", "Converges", "RepairLosesRound"}
-MON_REPAIR_ABORT = {"RepairLosesRound"}
+MON_C10 = {"OnlyVerifiedInOrder", "CheckExact", "RepairExact", "Converges", "RepairLosesRound", "WritesAboveHead"}
+MON_REPAIR_ABORT = {"RepairLosesRound", "WritesAboveHead"}
 # NothingFromLiars ("nothing is stored from a stream after it delivered a lie") is the anchor mechanism, not the
 # statement: it can fire while every stored beacon verified and was in chain order, so it is reported as a note.
 MON_NOTE = {"NothingFromLiars"}
@@ -133,6 +133,8 @@ def run(ctx, monitors):
             {"cfg": "MC_SyncClient_follow_peerhash.cfg", "expect_ok": False},
             # sensitivity: ResyncDeletesFirst = TRUE (delete, then write): an interrupted repair loses a round
             {"cfg": "MC_SyncClient_repair_delput.cfg", "expect_ok": False},
+            # sensitivity: CheckZeroIsClock = TRUE (upTo = 0 read as the clock's round, not clamped to the head)
+            {"cfg": "MC_SyncClient_repair_zeroclock.cfg", "expect_ok": False},
             {"cfg": "MC_SyncClient_run_big.cfg", "timeout": 1500, "workers": 8},
             {"cfg": "MC_SyncClient_race_big.cfg", "timeout": 1500, "workers": 8},
             {"cfg": "MC_SyncClient_follow_chained_big.cfg", "timeout": 900},
